@@ -69,9 +69,11 @@ A_DStop(k, dd, b, adef) ==
   IF b.dbase # "own" THEN {FALSE}
   ELSE {b.dstop} \cup (IF dd /\ adef # "absent" THEN {TRUE} ELSE {})
                  \cup (IF b.dann = "same" THEN BOOLEAN ELSE {})
+\* The class and argparse parsers always take the sentence out again (prose preserved exactly); the docstring and function
+\* parsers leave it in.  A description that already carries the sentence (chains) may keep or lose it.
 A_DAnn(k, dd, b, adef) ==
   IF b.dbase # "own" \/ adef = "absent" THEN {"no"}
-  ELSE {"no"} \cup (IF dd \/ b.dann = "same" THEN {"same"} ELSE {})
+  ELSE {"no"} \cup (IF (dd /\ k \notin {"class", "argparse"}) \/ b.dann = "same" THEN {"same"} ELSE {})
 
 SlotOK(k, dd, b, a) ==
   /\ a.name = b.name
